@@ -3,6 +3,7 @@ import AmaranthVerif.Spec.DomainSpec
 import AmaranthVerif.Proofs.ProcessSpec
 import AmaranthVerif.Proofs.ResetSpec
 import AmaranthVerif.Proofs.DomainRefineComb
+import AmaranthVerif.Proofs.DomainRenameMap
 
 /-!
 # C03 — clock domains, resets and control inserters behave as specified
@@ -29,7 +30,14 @@ Proved here for all designs, states and events:
   signal gets its initial value as its pending value; reset-less signals keep the assigned one;
 * `async_reset_only_resettable` — a rising asynchronous reset never touches reset-less signals or
   signals the domain does not drive;
-* `renamer_moves_only_domain` — `DomainRenamer` changes the domain key and nothing else.
+* `renamer_moves_only_domain` — `DomainRenamer` changes the domain key and nothing else;
+* `rename_map_is_simultaneous` / `rename_map_model_eq` — a `DomainRenamer` whose map has several entries (swaps, chains,
+  rotations: some target is also a source) moves every domain to the target named *for it*, all entries acting at once
+  (`simulRename`); the Spec writes such a map as a stack of one-entry renamings through private names
+  (`renameMapWrappers`, Spec/DomainRenameMap.lean) and that stack, anywhere in a wrapper stack, acts as the
+  simultaneous renaming; the Model's single dictionary lookup (`domainRenamerMap`, Model/DomainRename.lean — what
+  `map_statements` / `map_memory_ports` do) is the same process. Every `*_model_eq_spec` theorem below therefore
+  covers wrapper stacks with renaming maps.
 
 * `edge_writes` — at an active edge of its domain with the reset (if any) not asserted, a synchronous process
   changes the state by exactly its active assignments, the last one winning per bit; every other bit of every
@@ -376,7 +384,43 @@ theorem renamer_moves_only_domain (src dst : Nat) (p : Proc) :
   unfold domainRenamer
   by_cases h : p.dom = some src <;> simp [h]
 
+/-- **Renaming several domains at once.** A renaming map `m` (any entries: swaps, chains, rotations) written into a
+wrapper stack as `renameMapWrappers fresh m`, after any wrappers `l.wrappers` and before any wrappers `post`, moves the
+logic from the domain it had reached to `simulRename m` of that domain — the target named for exactly that domain, all
+entries acting at once — and the later wrappers act from there. `fresh`: a bound above every domain of the design. -/
+theorem rename_map_is_simultaneous (fresh : Nat) (m : List (Nat × Nat)) (hm : ∀ p ∈ m, p.1 < fresh ∧ p.2 < fresh)
+    (l : Leaf) (hd : ∀ d, l.finalDom = some d → d < fresh) (post : List Wrapper) :
+    ({ l with wrappers := l.wrappers ++ renameMapWrappers fresh m ++ post } : Leaf).finalDom =
+      ({ dom := l.finalDom.map (simulRename m), prog := l.prog, wrappers := post } : Leaf).finalDom := by
+  simp only [finalDom_eq_fold, List.foldl_append]
+  rw [finalDom_eq_fold] at hd
+  cases h : l.wrappers.foldl renStep l.dom with
+  | none => rw [renStep_none]; rfl
+  | some d => rw [expansion_fold fresh m fresh (Nat.le_refl _) hm d (hd d h)]; rfl
+
+/-- The Model's `DomainRenamer(map)` — one dictionary lookup of the process' domain key, as `map_statements` and
+`map_memory_ports` do it — is what the Model's one-entry renamers do along the Spec's stack for that map. -/
+theorem rename_map_model_eq (B : Design) (fresh : Nat) (m : List (Nat × Nat)) (hm : ∀ p ∈ m, p.1 < fresh ∧ p.2 < fresh)
+    (p : Proc) (hd : ∀ d, p.dom = some d → d < fresh) :
+    (renameMapWrappers fresh m).foldl (applyWrapper B) p = domainRenamerMap m p := by
+  rw [rename_fold_model]
+  unfold domainRenamerMap
+  cases h : p.dom with
+  | none => simp only [renStep_none]; cases p; simp_all
+  | some d =>
+    simp only
+    rw [expansion_fold fresh m fresh (Nat.le_refl _) hm d (hd d h), dictGet_eq_simulRename]
+
 /-! ### Non-vacuity -/
+
+-- a swap, a chain listed source-first and a rotation: every domain goes to the target named for it
+example : (List.range 3).map (simulRename [(0, 1), (1, 0)]) = [1, 0, 2] := by decide
+example : (List.range 3).map (simulRename [(0, 1), (1, 2)]) = [1, 2, 2] := by decide
+example : (List.range 3).map (simulRename [(0, 1), (1, 2), (2, 0)]) = [1, 2, 0] := by decide
+-- the one-entry renamings of the map applied one after the other *without* private names would not do that:
+example : [Wrapper.rename 0 1, Wrapper.rename 1 0].foldl renStep (some 0) = some 0 := by decide
+example : (renameMapWrappers 3 [(0, 1), (1, 0)]).foldl renStep (some 0) = some 1 := by decide
+example : (domainRenamerMap [(0, 1), (1, 2)] { dom := some 0, body := .skip }).dom = some 1 := by decide
 
 def exBase : Design :=
   { ctx := [⟨1, false⟩, ⟨1, false⟩, ⟨3, false⟩, ⟨1, false⟩],     -- clk, en, counter, other clk
